@@ -1407,7 +1407,7 @@ def site_retire_expired(fns):
             calc = it.ctx.uf("fn:Record::calculate_size", [U], z3.BitVecSort(64))
             ob.need(it, p.pc, ne[0].args[1] == calc(it.as_u(cur)), "un-counts size(current entry)")
     ob.must_hold(reached >= 1, "the removal site was reached")
-    return ob.result(it, witness=[("sampled generation", "c13_sweeper_identity"), ("under the guard", "c13_sweeper_identity"), ("", "c11_expiry_model")])
+    return ob.result(it, witness=[("sampled generation", "c13_sweeper_identity"), ("under the guard", "c13_sweeper_identity"), ("ordered-index slot", "c11_sweeper_vs_recreation"), ("", "c11_expiry_model")])
 
 
 # ============================================================================ C17: explicit panic sites in MIR
@@ -1829,9 +1829,22 @@ def scan_epilogue(fns):
             ob.need(it2, e.pc, z3.Not(ro2), "a read-only open never retires extents")
             if ret_ok:
                 ob.need(it2, p.pc, okd(it2, e), "the scan reports success only when the repairs were made durable")
+        # ONE repair transaction: stale duplicates found by the scan and expired winners found afterwards are retired by a single
+        # journaled retire_extents call, so a crash inside recovery's own repairs can never retire an expired winner without the
+        # older generation it shadowed (which would resurface at the next open)
+        ob.must_hold(len(re_) <= 1, "the scan's repairs are one journaled transaction: at most one retire_extents call after the loop")
+        xw = events(p, "::remove_expired_recovery_winners")
+        for x in xw:
+            ob.must_hold(not re_ or idx_of(p, x) < idx_of(p, re_[0]), "expired winners are collected before the single retirement transaction")
+            if re_:
+                ob.must_hold(any(z3.is_expr(a) and z3.is_expr(re_[0].args[-1]) and z3.eq(it2.as_u(a), it2.as_u(re_[0].args[-1])) for a in x.args),
+                             "the expired-winner pass appends to the SAME queue that the retirement transaction retires")
+            ob.must_hold(not any(z3.is_expr(a) and z3.is_expr(d) and z3.eq(it2.as_u(a), it2.as_u(d)) for a in x.args for d in [e.args[0] for e in re_]),
+                         "the expired-winner pass is not handed the device (it performs no retirement of its own)")
     ob.must_hold(epi >= 1, "the epilogue was reached")
     ob.queries += it2.queries
     return ob.result(it, witness=[("read-only open", "c15_migration_is_faithful"), ("sort key", "c15_migration_is_faithful"), ("never replays", "c15_migration_is_faithful"),
+                                  ("transaction", "c04_interrupted_recovery"), ("expired-winner pass", "c04_interrupted_recovery"),
                                   ("", "c04_recovery_repairs_only_dead_blocks")])
 
 
@@ -2247,10 +2260,34 @@ def site_coordinator_liveness(fns):
             after = [e for e in p.events if e.kind == "call" and idx_of(p, e) > idx_of(p, loads[-1]) and e.callee.endswith(("try_send", "sleep"))]
             ob.must_hold(not after, "nothing happens between seeing shutdown and returning")
     ob.must_hold(ret >= 1, "a return path exists")
+    # bounded wake-up period: every sleep of the coordinator – first round and any later round – is for the documented flush interval
+    it2 = Interp(f, loop_bound=2, pure=PURE, max_paths=20000)
+    sleeps = rounds2 = 0
+    const_term = None
+    for p in it2.run():
+        ob.paths += 1
+        if p.status == "truncated":
+            ob.truncated += 1
+        sl = events(p, "thread::sleep")
+        if len(sl) >= 2:
+            rounds2 += 1
+        for e in sl:
+            sleeps += 1
+            a = e.args[0]
+            ob.must_hold(z3.is_expr(a) and z3.is_expr(sl[0].args[0]) and z3.eq(a, sl[0].args[0]),
+                         "every round of the coordinator sleeps for the same duration as the first round (no back-off, no drift): found %s vs %s" % (str(a)[:40], str(sl[0].args[0])[:40]))
+        if sl:
+            a0 = sl[0].args[0]
+            first_is_const = z3.is_expr(a0) and a0.num_args() == 0 and ("WRITE_BUFFER_FLUSH_INTERVAL" in str(a0) or str(a0).startswith("from_millis!") or str(a0).startswith("K:"))
+            ob.must_hold(first_is_const and not any(e.kind == "call" and e.callee.endswith(("from_millis", "from_secs", "from_micros")) and idx_of(p, e) < idx_of(p, sl[0]) for e in p.events),
+                         "the first round sleeps for the constant item WRITE_BUFFER_FLUSH_INTERVAL (nothing computed at run time)")
+    ob.must_hold(sleeps >= 1 and rounds2 >= 1, "the sleep of a second round was reached (%d sleeps, %d two-round paths)" % (sleeps, rounds2))
+    iv = mir.CONST_ITEMS.get("WRITE_BUFFER_FLUSH_INTERVAL")
+    ob.notes.append("WRITE_BUFFER_FLUSH_INTERVAL item: %s" % (str(iv)[:160],))
     t = f.text
     ob.must_hold(re.search(r"Range<usize> as Iterator>::step_by\(move _\d+, move _\d+\)", t) is not None and "Sender<FlushRequest>>::len" in t,
                  "the coordinator inspects (w..S).step_by(number of worker channels)")
-    return ob.result(it, witness="c19_coordinator_survives_full_queue")
+    return ob.result(it, witness=[("sleeps for", "c19_idle_store_still_flushes"), ("", "c19_coordinator_survives_full_queue")])
 
 
 def site_flush_worker_requeue(fns):
@@ -2843,6 +2880,7 @@ def scan_iteration(fns, panics=False):
             # reviewed summary of the (dyn) RecordFormat::total_size: header + key + value, decided for all admissible lengths by the Kani
             # harness c05_extent_length_agreement; records already in the index passed this scan's own size check when they were indexed
             ax = []
+            pre_sites = []
             # lengths of named byte-string constants (`const X: &[u8; N]`), from their own MIR items
             for cname, cterm in list(it.ctx.consts.items()):
                 item = mir.CONST_ITEMS.get(cname.rsplit("::", 1)[-1])
@@ -2861,6 +2899,16 @@ def scan_iteration(fns, panics=False):
                     ax.append(z3.Implies(bounded, z3.ULE(e.ret, 100 * 1024 + 4 * 1024 * 1024 + 64)))
                     if any(contains(kk, it.as_u(r.ret)) or contains(vv, it.as_u(r.ret)) for r in reads):
                         ax.append(bounded)
+                    else:
+                        # assume/guarantee: the summary is used only under its precondition, so the precondition is an obligation at every
+                        # call site fed from device bytes: lengths are range-checked BEFORE they reach the format's size arithmetic
+                        pre_sites.append((e, bounded))
+            for (e, bounded) in pre_sites:
+                key = ("pre", e.callee, tuple(str(a)[:120] for a in e.args), len(e.pc))
+                if key in seen:
+                    continue
+                seen.add(key)
+                pob.need(it, list(e.pc), bounded, "RecordFormat::total_size is reached only with key_len <= MAX_KEY_SIZE and value_len <= MAX_VALUE_SIZE (its header + value addition cannot overflow on device-supplied lengths)")
             for e in p.events:
                 if e.kind not in ("assert", "slice", "unwrap_array"):
                     continue
@@ -3192,6 +3240,8 @@ def site_recovery_expired_winners(fns):
             if rel_ok:   # a failing release aborts the whole open: counters are irrelevant then
                 ob.must_hold(len(cnt) == 1, "record_count decremented once")
     ob.must_hold(reached >= 1, "the removal site was reached")
+    ob.must_hold(not re.search(r"DiskIO::(retire_extents|write_sectors_sync|write_allocation_journal|batch_write)", f.text),
+                 "the expired-winner pass performs no device write of its own: removed generations are queued for the scan's single retirement transaction")
     # collection predicate: `expiry > 0 && now > expiry` guards the push into `expired`
     now = z3.BitVec("now", 64)
 
@@ -3829,8 +3879,11 @@ def site_sweeper(fns):
             rec = it.ctx.uf("proj__1", [U], U)(cand)
             ob.need(it, rem[0].pc, it.as_u(cur) == rec, "the removed entry is the sampled generation")
         ob.must_hold(len(ne) == 1 and idx_of(p, ne[0]) > idx_of(p, rem[0]), "counters adjusted once, after the removal")
+        rt = events(p, "::remove_from_tree")
+        ob.must_hold(len(rt) == 1 and idx_of(p, rt[0]) < idx_of(p, rem[0]),
+                     "the ordered-index slot is removed while the entry guard is still held (before the hash entry is removed): a key re-created right after the removal keeps its slot")
     ob.must_hold(reached >= 1, "the removal site was reached")
-    return ob.result(it, witness=[("sampled generation", "c13_sweeper_identity"), ("under the guard", "c13_sweeper_identity"), ("", "c11_expiry_model")])
+    return ob.result(it, witness=[("sampled generation", "c13_sweeper_identity"), ("under the guard", "c13_sweeper_identity"), ("ordered-index slot", "c11_sweeper_vs_recreation"), ("", "c11_expiry_model")])
 
 
 # ============================================================================ common tail
